@@ -183,25 +183,33 @@ def theorem_names(module):
 FORBIDDEN = re.compile(r"\b(sorry|admit|native_decide|bv_decide|implemented_by|unsafe)\b|^\s*axiom\s|maxHeartbeats\s+0\b", re.M)
 
 
+_IMPORT_RE = re.compile(r"^\s*import\s+(TempestVerif(?:\.[A-Za-z0-9_]+)+)", re.M)
+
+
+def import_closure(modules):
+    """the project files a set of modules depends on (transitively), as paths"""
+    seen, todo = {}, list(modules)
+    while todo:
+        m = todo.pop()
+        if m in seen:
+            continue
+        path = os.path.join(LEAN, *m.split(".")) + ".lean"
+        seen[m] = path
+        if os.path.exists(path):
+            todo += _IMPORT_RE.findall(strip_comments(open(path).read()))
+    return seen
+
+
 def grep_gate(modules):
-    """forbidden constructs outside comments in the given modules and everything under Model/, Lemmas/, Gen/."""
+    """forbidden constructs outside comments in the given modules and everything of this project they import"""
     hits = []
-    files = set()
-    for m in modules:
-        files.add(os.path.join(LEAN, *m.split(".")) + ".lean")
-    for sub in ("Model", "Lemmas", "Gen"):
-        d = os.path.join(LEAN, "TempestVerif", sub)
-        if os.path.isdir(d):
-            for f in os.listdir(d):
-                if f.endswith(".lean"):
-                    files.add(os.path.join(d, f))
-    for f in sorted(files):
+    for m, f in sorted(import_closure(modules).items()):
         if not os.path.exists(f):
             continue
         src = strip_comments(open(f).read())
-        for m in FORBIDDEN.finditer(src):
-            line = src.count("\n", 0, m.start()) + 1
-            hits.append(f"{os.path.relpath(f, LEAN)}:{line}: {m.group(0).strip()}")
+        for mm in FORBIDDEN.finditer(src):
+            line = src.count("\n", 0, mm.start()) + 1
+            hits.append(f"{os.path.relpath(f, LEAN)}:{line}: {mm.group(0).strip()}")
     return hits
 
 
